@@ -44,7 +44,14 @@ def TARGET_FILES(cls):
 
 def gen_member(rng, role, base):
     if role in ("rrule", "exrule"):
-        return RL.gen_family_rule(rng, base, cache=rng.random() < 0.35)
+        spec = RL.gen_family_rule(rng, base, cache=rng.random() < 0.35)
+        if not spec["cache"] and rng.random() < 0.4:
+            spec["shared_uncached"] = True
+            if rng.random() < 0.5:
+                # make it consult the weekday/month masks and span years
+                spec["freq"] = rng.choice([0, 1, 2])
+                spec["interval"] = 1
+        return spec
     return RL.gen_family_date(rng, base)
 
 
@@ -163,6 +170,12 @@ def execute(cls, scenario, ctx):
                 shared = RL.build_rule(payload, cache=True)
                 objs = [shared, shared]
                 ctx.probe("shared_cached_member")
+            elif payload.get("shared_uncached"):
+                # one uncached rule object used by both sets (legal: a rule
+                # is immutable); their iterators interleave on it
+                one = RL.build_rule(payload, cache=False)
+                objs = [one, one]
+                ctx.probe("shared_uncached_member")
             else:
                 objs = [RL.build_rule(payload, cache=False),
                         RL.build_rule(payload, cache=False)]
